@@ -89,6 +89,15 @@ func stressChild(args []string) int {
 	readers, _ := strconv.Atoi(args[3])
 	outPath, dir := args[4], args[5]
 	quietLogs(dir)
+	go func() { // never endanger the machine
+		for {
+			time.Sleep(200 * time.Millisecond)
+			if r := rssBytes(); r > 6<<30 {
+				fmt.Fprintf(os.Stderr, "englab-stress: resident set %d MiB exceeds the guard, aborting\n", r>>20)
+				os.Exit(3)
+			}
+		}
+	}()
 	eng, err := openEngine(typ, dir, SeqParams{})
 	if err != nil {
 		fmt.Fprintln(os.Stderr, "open:", err)
@@ -99,7 +108,7 @@ func stressChild(args []string) int {
 	observe := func(o stressObs) {
 		omu.Lock()
 		out.ObsCount[o.Kind]++
-		if len(out.Obs) < 20 {
+		if out.ObsCount[o.Kind] <= 3 { // a few examples of every kind
 			out.Obs = append(out.Obs, o)
 		}
 		omu.Unlock()
@@ -718,4 +727,17 @@ func runStress(c *vc.Ctx) error {
 		c.Ev.Set("race_reports_outside_anchor", l)
 	}
 	return nil
+}
+
+func rssBytes() int64 {
+	b, err := ioutil.ReadFile("/proc/self/statm")
+	if err != nil {
+		return 0
+	}
+	f := strings.Fields(string(b))
+	if len(f) < 2 {
+		return 0
+	}
+	pages, _ := strconv.ParseInt(f[1], 10, 64)
+	return pages * int64(os.Getpagesize())
 }
